@@ -2150,12 +2150,14 @@ func (c *Conn) handleRecordContent(
 	switch content := content.(type) {
 	case *protocol.ACK:
 		isLatestSeqNum := prepared.markPacketAsValid()
-		// An ACK only acknowledges records of its own or an earlier epoch: an
-		// unprotected (epoch 0) ACK says nothing about protected flights.
+		// Epoch 0 records are not authenticated: an unprotected ACK can only
+		// acknowledge unprotected records, it says nothing about protected
+		// flights. (The two directions advance their epochs independently, so
+		// protected ACKs are not compared with the epochs they acknowledge.)
 		// https://www.rfc-editor.org/rfc/rfc9147.html#section-7
 		records := make([]protocol.RecordNumber, 0, len(content.Records))
 		for _, record := range content.Records {
-			if record.Epoch <= uint64(prepared.header.Epoch) {
+			if prepared.header.Epoch != 0 || record.Epoch == 0 {
 				records = append(records, record)
 			}
 		}
